@@ -173,6 +173,8 @@ def r7_election(ctx):
     _sub(ctx, c04.r6_top_m, "C05.R7", only=lambda o: "GeneralRating" in o.construct or "selector consumes" in o.construct)
     f = ctx.prog.find_func("GeneralRating._is_finished")
     ctx.consult(f)
+    # "the m highest totals win, ties broken or rejected": totals that are equal must land in one group, different ones never
+    _sub(ctx, c04.r5_grouping_direction, "C05.R7", only=lambda o: o.function.endswith("score_dict_to_ranking"))
     # replaying the single round must not record again (shared with C09.R2)
     from rules import c09
     sub = type(ctx)(ctx.prog, ctx.prop, ctx.tier)
